@@ -14,6 +14,7 @@ CONSTANTS
   ListAns = {}
   MaxItems = 1
   Layouts = {}
+  TableOnly = {"g1212"}
   OkRecomputed = TRUE
 INVARIANT InvStage
 INVARIANT InvGradesInUnit
